@@ -201,9 +201,90 @@ func main() {
 		r.Assume("slot names that are empty or contain ',' and error texts that are empty or the literal SUCCESS cannot be carried by the wire format and are not generated", "private keys are compared by the public key they yield")
 		gen.Pool()
 		loadCerts()
+		var iwg sync.WaitGroup
+		iwg.Add(1)
+		go func() { defer iwg.Done(); idleClient(r) }()
+		defer iwg.Wait()
 		rigA(r)
 		rigB(r)
 		r.Floor(int64(r.Pick(5000, 100000)), int64(r.Pick(1500, 20000)))
+	})
+}
+
+// idleClient: a client that is used, left alone for a while, and used again behaves as if no time had passed: each kind
+// of operation first, then six (thorough: forty) seconds of silence, then every kind of operation again, against the
+// recording served agent.
+func idleClient(r *ev.Run) {
+	c := r.Case("idle-client", 0)
+	if c == nil {
+		return
+	}
+	r.Eval(1)
+	r.Guard(c, "idle client", nil, func() {
+		srv := &recAgent{}
+		c1, c2, err := wire.SocketPair()
+		if err != nil {
+			r.Inconclusive(err.Error())
+			return
+		}
+		defer c1.Close()
+		go func() { defer c2.Close(); defer func() { recover() }(); yubiagent.ServeAgent(srv, c2) }()
+		cl, err := yubiagent.NewClientFromConn(c1)
+		if err != nil {
+			r.Violation(c, "client-construction-fails", err.Error(), nil)
+			return
+		}
+		srv.slots = []string{"9a", "9c"}
+		srv.keys = []*agent.Key{{Format: "ssh-ed25519", Blob: gen.Pool()[0].Pub.Marshal(), Comment: "k"}}
+		srv.raw = []byte{6}
+		if len(x509Certs) > 0 {
+			srv.cert = x509Certs[0]
+		}
+		round := func(when string) bool {
+			type step struct {
+				name string
+				f    func() error
+			}
+			steps := []step{
+				{"list", func() error { _, e := cl.List(); return e }},
+				{"lock", func() error { return cl.Lock([]byte("p")) }},
+				{"unlock", func() error { return cl.Unlock([]byte("p")) }},
+				{"forward", func() error { _, e := cl.Forward([]byte{200, 1, 2}); return e }},
+				{"remove-all", func() error { return cl.RemoveAll() }},
+				{"list-slots", func() error { _, e := cl.ListSlots(); return e }},
+				{"read-slot", func() error { _, e := cl.ReadSlot("9a"); return e }},
+				{"attest-slot", func() error { _, e := cl.AttestSlot("9a"); return e }},
+			}
+			for _, st := range steps {
+				srv.take()
+				done := make(chan error, 1)
+				go func() { done <- st.f() }()
+				select {
+				case e := <-done:
+					if e != nil {
+						r.Violation(c, "client-server-mismatch:"+st.name+":error-"+when+"-idling", fmt.Sprintf("the served agent answers without error; the client returned %v", e), map[string]any{"operation": st.name, "when": when})
+						return false
+					}
+					if n := len(srv.take()); n != 1 {
+						r.Violation(c, "client-server-mismatch:"+st.name+":call-count-"+when+"-idling", fmt.Sprintf("the served agent saw %d calls", n), map[string]any{"operation": st.name, "when": when})
+						return false
+					}
+				case <-time.After(ev.OpTimeout()):
+					r.Violation(c, "operation-does-not-return:"+st.name+":"+when+"-idling", "", nil)
+					return false
+				}
+			}
+			return true
+		}
+		if !round("before") {
+			return
+		}
+		time.Sleep(time.Duration(r.Pick(6, 40)) * time.Second)
+		if !round("after") {
+			return
+		}
+		r.Count("operations through a client that had been idle for a while", 8)
+		r.Nontrivial("idle-client")
 	})
 }
 
